@@ -95,15 +95,16 @@ fn leaf_pos0(i: usize) -> u64 {
 enum Op {
 	/// unit of work: rewind to boundary `to` (None = stay), then one block per entry
 	/// (appends, removals as indices into the live list at that time), then sync/discard
-	Unit { to: Option<usize>, blocks: Vec<(usize, Vec<usize>)>, sync: bool },
+	Unit { to: Option<usize>, blocks: Vec<(usize, Vec<usize>)>, sync: bool, norewind: bool },
 	Compact { at: usize },
 	Reopen,
 }
 
 fn show(op: &Op) -> String {
 	match op {
-		Op::Unit { to, blocks, sync } => format!(
-			"unit[{}{}{}]",
+		Op::Unit { to, blocks, sync, norewind } => format!(
+			"unit[{}{}{}{}]",
+			if *norewind { "norewind " } else { "" },
 			to.map(|t| format!("rewind->b{} ", t)).unwrap_or_default(),
 			blocks.iter().map(|(a, r)| format!("+{}-{:?}", a, r)).collect::<Vec<_>>().join(" "),
 			if *sync { " sync" } else { " discard" }
@@ -208,10 +209,15 @@ fn open<T: TestElem>(dir: &Path) -> PMMRBackend<T> {
 /// Execute one op on the directory; returns false if an oracle failed.
 fn exec<T: TestElem>(dir: &Path, m: &mut Model, op: &Op, hist: &[String], rep: &mut Report) -> bool {
 	let mut be = open::<T>(dir);
+	exec_on::<T>(&mut be, m, op, hist, rep)
+}
+
+/// Execute one op on an open backend (which the caller may keep across ops).
+fn exec_on<T: TestElem>(be: &mut PMMRBackend<T>, m: &mut Model, op: &Op, hist: &[String], rep: &mut Report) -> bool {
 	let mut ok = true;
 	match op {
 		Op::Reopen => {
-			ok &= check(&mut be, m, "reopen", hist, rep);
+			ok &= check(be, m, "reopen", hist, rep);
 		}
 		Op::Compact { at } => {
 			let mut rm = Bitmap::new();
@@ -226,14 +232,19 @@ fn exec<T: TestElem>(dir: &Path, m: &mut Model, op: &Op, hist: &[String], rep: &
 				return false;
 			}
 			m.cutoff_b = *at;
-			ok &= check(&mut be, m, "compact", hist, rep);
+			ok &= check(be, m, "compact", hist, rep);
 		}
-		Op::Unit { to, blocks, sync } => {
+		Op::Unit { to, blocks, sync, norewind } => {
 			let saved = m.clone();
-			// the chain always starts a unit by rewinding to the boundary it builds on
+			// the chain always starts a unit by rewinding to the boundary it builds on (even when it
+			// is the current one); other users of the backend (segment application, header sync)
+			// append without any rewind: `norewind`
 			let target = to.unwrap_or(m.bounds.len() - 1);
 			let mut k = m.bounds.len() - 1;
 			loop {
+				if *norewind {
+					break;
+				}
 				// rewind block k (or the no-op rewind when k == target)
 				let (prev_leaves, removed) = if k > target {
 					(m.bounds[k - 1].n_leaves, m.bounds[k].removed.clone())
@@ -246,7 +257,7 @@ fn exec<T: TestElem>(dir: &Path, m: &mut Model, op: &Op, hist: &[String], rep: &
 				}
 				{
 					let cur = m.size();
-					let mut pm = PMMR::at(&mut be, cur);
+					let mut pm = PMMR::at(be, cur);
 					if let Err(e) = pm.rewind(mmr_size(prev_leaves), &bm) {
 						rep.violation("rewind:error", format!("rewind failed: {}", e), json!({"history": hist}));
 						return false;
@@ -260,9 +271,9 @@ fn exec<T: TestElem>(dir: &Path, m: &mut Model, op: &Op, hist: &[String], rep: &
 				if k > target {
 					m.bounds.pop();
 					k -= 1;
-					ok &= check(&mut be, m, "rewind", hist, rep);
+					ok &= check(be, m, "rewind", hist, rep);
 				} else {
-					ok &= check(&mut be, m, "rewind", hist, rep);
+					ok &= check(be, m, "rewind", hist, rep);
 					break;
 				}
 			}
@@ -272,7 +283,7 @@ fn exec<T: TestElem>(dir: &Path, m: &mut Model, op: &Op, hist: &[String], rep: &
 				let mut removed = vec![];
 				{
 					let cur = m.size();
-					let mut pm = PMMR::at(&mut be, cur);
+					let mut pm = PMMR::at(be, cur);
 					for _ in 0..*appends {
 						let id = m.next_id;
 						m.next_id += 1;
@@ -306,21 +317,21 @@ fn exec<T: TestElem>(dir: &Path, m: &mut Model, op: &Op, hist: &[String], rep: &
 					}
 				}
 				m.bounds.push(Bound { n_leaves: m.leaves.len(), removed });
-				ok &= check(&mut be, m, "block", hist, rep);
+				ok &= check(be, m, "block", hist, rep);
 			}
 			if *sync {
 				if let Err(e) = be.sync() {
 					rep.violation("sync:error", format!("{:?}", e), json!({"history": hist}));
 					return false;
 				}
-				ok &= check(&mut be, m, "sync", hist, rep);
+				ok &= check(be, m, "sync", hist, rep);
 			} else {
 				be.discard();
 				// ids consumed by the discarded unit are never reused
 				let next = m.next_id;
 				*m = saved;
 				m.next_id = next;
-				ok &= check(&mut be, m, "discard", hist, rep);
+				ok &= check(be, m, "discard", hist, rep);
 			}
 		}
 	}
@@ -398,13 +409,13 @@ fn ops_for(m: &Model, b: &Bounds) -> Vec<Op> {
 				if !sync && to.is_none() && !blk.1.is_empty() && blk.0 > 1 {
 					continue; // a few discard shapes are enough: keep the simplest and the rewound ones
 				}
-				out.push(Op::Unit { to, blocks: vec![blk.clone()], sync });
+				out.push(Op::Unit { to, blocks: vec![blk.clone()], sync, norewind: false });
 			}
 			if b.two_block_units && to.is_some() && room >= blk.0 + 1 {
 				// reorg shape: rewind, then two blocks (second one: one append, removes the first live leaf)
 				let second = (1usize, if live.len() > blk.1.len() { vec![0usize] } else { vec![] });
 				// indices of the second block refer to the live list after the first block
-				out.push(Op::Unit { to, blocks: vec![blk.clone(), second], sync: true });
+				out.push(Op::Unit { to, blocks: vec![blk.clone(), second], sync: true, norewind: false });
 			}
 		}
 	}
@@ -509,8 +520,223 @@ fn run<T: TestElem>(tier: Tier, shard: usize, n: usize, tag: &str) -> Report {
 	let mut x = X { sc: &sc, memo: HashSet::new(), b, me: shard, n, max_states: tier.pick(400_000, 4_000_000) };
 	let mut hist = vec![];
 	dfs::<T>(&mut x, &root, &Model::new(), &mut hist, &mut rep, (0, n), tag);
+	// second start: a backend that already holds synced, partly spent leaves (what a compaction can
+	// shrink), explored with narrower blocks - sequences such as discard, compact, discard, append
+	// need fewer steps from here than from the empty backend
+	let root2 = sc.fresh("root2");
+	std::fs::create_dir_all(&root2).unwrap();
+	{
+		let be = open::<T>(&root2);
+		drop(be);
+	}
+	let mut m0 = Model::new();
+	let pre = [Op::Unit { to: None, blocks: vec![(4, vec![])], sync: true, norewind: false }, Op::Unit { to: None, blocks: vec![(0, vec![0, 1])], sync: true, norewind: false }];
+	let mut pre_hist: Vec<String> = vec![];
+	for op in &pre {
+		pre_hist.push(format!("pre:{}", show(op)));
+		if !exec::<T>(&root2, &mut m0, op, &pre_hist, &mut rep) {
+			return rep;
+		}
+	}
+	x.b = match tier {
+		Tier::Quick => Bounds { max_depth: 3, max_leaves: 6, max_removals: 1, max_appends: 1, two_block_units: false },
+		Tier::Thorough => Bounds { max_depth: 4, max_leaves: 7, max_removals: 1, max_appends: 2, two_block_units: false },
+	};
+	let tag2 = format!("{}:from-spent-leaves", tag);
+	let mut hist = pre_hist.clone();
+	dfs::<T>(&mut x, &root2, &m0, &mut hist, &mut rep, (0, n), &tag2);
 	let _ = x.n;
 	rep
+}
+
+/// Live part: one backend object kept open across the ops of a path (only `reopen` replaces it), so
+/// that state the backend keeps in memory between units of work is part of what is explored.
+/// Stateless DFS: every path of the depth bound is executed from its start state (no memoisation:
+/// the in-memory state is not observable).
+fn live<T: TestElem>(tier: Tier, shard: usize, n: usize, tag: &str) -> Report {
+	let mut rep = Report::new();
+	let sc = uni::Scratch::new("c08l");
+	let depth = tier.pick(4usize, 6);
+	rep.extra.insert("bound_depth_ops".into(), json!(depth));
+	// narrow alphabet: rewind targets {stay, one block back}; blocks {+1, -first live, +1 -first live}
+	let narrow = |m: &Model| -> Vec<Op> {
+		let last = m.bounds.len() - 1;
+		let mut out = vec![];
+		let mut targets: Vec<Option<usize>> = vec![None];
+		if last >= 1 && last - 1 >= m.cutoff_b {
+			targets.push(Some(last - 1));
+		}
+		for to in targets {
+			let tb = to.unwrap_or(last);
+			let n_leaves = m.bounds[tb].n_leaves;
+			let mut live: BTreeSet<usize> = m.live.iter().cloned().filter(|i| *i < n_leaves).collect();
+			for k in tb + 1..=last {
+				for i in &m.bounds[k].removed {
+					if *i < n_leaves {
+						live.insert(*i);
+					}
+				}
+			}
+			let mut blocks: Vec<(usize, Vec<usize>)> = vec![(1, vec![])];
+			if !live.is_empty() {
+				blocks.push((0, vec![0]));
+				blocks.push((1, vec![0]));
+			}
+			for b in blocks {
+				for sync in [true, false] {
+					out.push(Op::Unit { to, blocks: vec![b.clone()], sync, norewind: false });
+				}
+				if to.is_none() {
+					// the same block in a unit of work that does not rewind at all
+					out.push(Op::Unit { to, blocks: vec![b.clone()], sync: true, norewind: true });
+				}
+			}
+			if to.is_none() {
+				// a read-only unit: rewind to the current boundary, look, discard
+				out.push(Op::Unit { to, blocks: vec![], sync: false, norewind: false });
+			}
+		}
+		out.push(Op::Compact { at: last });
+		if last >= 1 && last - 1 > m.cutoff_b {
+			out.push(Op::Compact { at: last - 1 });
+		}
+		out.push(Op::Reopen);
+		out
+	};
+	// start states: empty, and 4 synced leaves of which two are spent
+	let starts: Vec<(&str, Vec<Op>)> = vec![
+		("empty", vec![]),
+		("spent-leaves", vec![Op::Unit { to: None, blocks: vec![(4, vec![])], sync: true, norewind: false }, Op::Unit { to: None, blocks: vec![(0, vec![0, 1])], sync: true, norewind: false }]),
+	];
+	let mut paths = 0u64;
+	for (sname, pre) in &starts {
+		// enumerate paths by index vectors; the model is replayed to know the alphabet of each step
+		let mut stack: Vec<Vec<usize>> = vec![vec![]];
+		let mut top = 0usize;
+		while let Some(choice) = stack.pop() {
+			let dir = sc.fresh("l");
+			std::fs::create_dir_all(&dir).unwrap();
+			let mut be = open::<T>(&dir);
+			let mut m = Model::new();
+			let mut hist: Vec<String> = vec![];
+			let mut ok = true;
+			for op in pre {
+				hist.push(format!("pre:{}", show(op)));
+				ok &= exec_on::<T>(&mut be, &mut m, op, &hist, &mut rep);
+			}
+			if ok {
+				drop(be);
+				be = open::<T>(&dir);
+			}
+			for ci in &choice {
+				if !ok {
+					break;
+				}
+				let ops = narrow(&m);
+				let op = ops[*ci].clone();
+				hist.push(show(&op));
+				rep.transitions += 1;
+				if op == Op::Reopen {
+					drop(be);
+					be = open::<T>(&dir);
+				}
+				ok &= exec_on::<T>(&mut be, &mut m, &op, &hist, &mut rep);
+			}
+			if choice.len() == depth || !ok {
+				paths += 1;
+				rep.evaluations += 1;
+				rep.distinct += 1;
+				rep.outcome(&format!("live:{}:path-of-{}", sname, choice.len()));
+			} else {
+				let k = narrow(&m).len();
+				for ci in 0..k {
+					if choice.is_empty() {
+						top += 1;
+						if (top - 1) % n != shard {
+							continue;
+						}
+					}
+					let mut c = choice.clone();
+					c.push(ci);
+					stack.push(c);
+				}
+			}
+			drop(be);
+			let _ = std::fs::remove_dir_all(&dir);
+			if rep.violations.len() >= 20 {
+				break;
+			}
+		}
+	}
+	rep.extra.insert(format!("live_paths_{}", tag), json!(paths));
+	rep
+}
+
+/// inverse of `show`
+fn parse_op(h: &str) -> Result<Op, String> {
+	let h = h.strip_prefix("pre:").unwrap_or(h);
+	if h == "reopen" {
+		return Ok(Op::Reopen);
+	}
+	if let Some(at) = h.strip_prefix("compact@b") {
+		return Ok(Op::Compact { at: at.parse().map_err(|_| format!("bad op {}", h))? });
+	}
+	let body = h.strip_prefix("unit[").and_then(|x| x.strip_suffix(']')).ok_or(format!("bad op {}", h))?;
+	let (body, sync) = if let Some(b) = body.strip_suffix(" sync") {
+		(b, true)
+	} else if let Some(b) = body.strip_suffix(" discard") {
+		(b, false)
+	} else {
+		return Err(format!("bad op {}", h));
+	};
+	let (body, norewind) = match body.strip_prefix("norewind") {
+		Some(b) => (b.trim_start(), true),
+		None => (body, false),
+	};
+	let (to, mut rest) = match body.strip_prefix("rewind->b") {
+		Some(r) => {
+			let end = r.find(' ').unwrap_or(r.len());
+			(Some(r[..end].parse::<usize>().map_err(|_| format!("bad op {}", h))?), r[end..].trim_start())
+		}
+		None => (None, body),
+	};
+	let mut blocks = vec![];
+	while let Some(r) = rest.strip_prefix('+') {
+		let dash = r.find("-[").ok_or(format!("bad op {}", h))?;
+		let close = r.find(']').ok_or(format!("bad op {}", h))?;
+		let a: usize = r[..dash].parse().map_err(|_| format!("bad op {}", h))?;
+		let rem: Vec<usize> = r[dash + 2..close].split(',').map(|x| x.trim()).filter(|x| !x.is_empty()).map(|x| x.parse().unwrap_or(0)).collect();
+		blocks.push((a, rem));
+		rest = r[close + 1..].trim_start();
+	}
+	Ok(Op::Unit { to, blocks, sync, norewind })
+}
+
+fn replay_ops<T: TestElem>(ops: &[Op], tag: &str) -> Result<String, String> {
+	// both execution disciplines: a fresh backend object per op (snapshot parts) and one backend
+	// object kept across ops (live part)
+	for keep in [false, true] {
+		let sc = uni::Scratch::new("c08r");
+		let dir = sc.fresh("r");
+		std::fs::create_dir_all(&dir).unwrap();
+		let mut be = open::<T>(&dir);
+		let mut m = Model::new();
+		let mut rep = Report::new();
+		let mut hist = vec![];
+		for op in ops {
+			hist.push(show(op));
+			if !keep || *op == Op::Reopen {
+				drop(be);
+				be = open::<T>(&dir);
+			}
+			let ok = exec_on::<T>(&mut be, &mut m, op, &hist, &mut rep);
+			if !ok || !rep.violations.is_empty() {
+				let v = rep.violations.first().map(|v| format!("{}: {}", v.key, v.what)).unwrap_or_else(|| "step failed".into());
+				return Err(format!("{} elements ({}): after {:?}: {}", tag, if keep { "one backend object kept open" } else { "backend reopened before every op" }, hist, v));
+			}
+		}
+	}
+	Ok(format!("{} elements: {} steps agree with the reference under both disciplines", tag, ops.len()))
 }
 
 impl Engine for C08 {
@@ -520,25 +746,35 @@ impl Engine for C08 {
 	fn meta(&self, _tier: Tier) -> Meta {
 		Meta {
 			level: "model_checking",
-			rule: "explicit-state exploration (DFS over snapshots of the backend directory, memoised on reference state + file contents + remaining depth) of the real prunable PMMRBackend for a fixed-size and a variable-size element type. Alphabet: a unit of work = optional rewind to any earlier block boundary not below the last compaction cutoff (block by block, each with the bitmap of the leaves that block removed, exactly as Extension::rewind does) then one or two blocks of 0..3 appends and removal of any <= 2 live leaves (spend-only blocks included), then sync or discard; check_compact at any boundary with the rewind bitmap of later removals; reopen. After every step the view through PMMR::at must agree with an unpruned reference: root, size, get_data/get_hash of every live leaf, None for spent leaves, a merkle_proof for every live leaf verifying against the root, leaf_pos_iter, leaf_idx_iter(from) for every from, n_unpruned_leaves, PMMR::validate.",
+			rule: "explicit-state exploration (DFS over snapshots of the backend directory, memoised on reference state + file contents + remaining depth) of the real prunable PMMRBackend for a fixed-size and a variable-size element type. Alphabet: a unit of work = optional rewind to any earlier block boundary not below the last compaction cutoff (block by block, each with the bitmap of the leaves that block removed, exactly as Extension::rewind does) then one or two blocks of 0..3 appends and removal of any <= 2 live leaves (spend-only blocks included), then sync or discard; check_compact at any boundary with the rewind bitmap of later removals; reopen. After every step the view through PMMR::at must agree with an unpruned reference: root, size, get_data/get_hash of every live leaf, None for spent leaves, a merkle_proof for every live leaf verifying against the root, leaf_pos_iter, leaf_idx_iter(from) for every from, n_unpruned_leaves, PMMR::validate. The snapshot parts open a fresh backend object for every step and start from the empty backend and from one holding four synced leaves of which two are spent. (live parts) the same oracle with ONE backend object kept open along each path (only `reopen` replaces it), so that what the backend keeps in memory between units of work is explored too: every path of the depth bound (no memoisation) over a narrower alphabet {unit = rewind to the current boundary or one block back, then +1 / -first live / +1 -first live, sync or discard; the same blocks in a unit that does not rewind at all; a read-only unit (rewind, look, discard); compact at the last two boundaries; reopen}, from both start states.",
 			assumptions: vec![
 				"rewinds never go below the last compaction cutoff and happen before the appends of a unit (the store's documented usage protocol)".into(),
 				"3 units of work with up to 3 appends and 9 leaves (quick) / 4 units with up to 2 appends and 7 leaves (thorough), plus up to 2 compactions and 1 reopen anywhere in between; removal sets of size <= 2 per block".into(),
+				"live parts: paths of 4 ops (quick) / 6 ops (thorough)".into(),
 			],
 			exhaustive: true,
 		}
 	}
 	fn parts(&self, _tier: Tier) -> Vec<(&'static str, usize)> {
-		vec![("fixed", 16), ("variable", 16)]
+		vec![("fixed", 16), ("variable", 16), ("live-fixed", 16), ("live-variable", 16)]
 	}
 	fn run_part(&self, part: &str, tier: Tier, shard: usize, n: usize) -> Report {
 		match part {
 			"fixed" => run::<Elem>(tier, shard, n, "fixed"),
 			"variable" => run::<VarElem>(tier, shard, n, "variable"),
+			"live-fixed" => live::<Elem>(tier, shard, n, "fixed"),
+			"live-variable" => live::<VarElem>(tier, shard, n, "variable"),
 			_ => panic!("unknown part"),
 		}
 	}
 	fn replay(&self, case: &Value) -> Result<String, String> {
-		Ok(format!("history to re-run by hand: {}", case["history"]))
+		let hist: Vec<String> = case["history"].as_array().ok_or("no history")?.iter().filter_map(|x| x.as_str().map(|s| s.to_string())).collect();
+		let ops: Vec<Op> = hist.iter().map(|h| parse_op(h)).collect::<Result<_, _>>()?;
+		let a = replay_ops::<Elem>(&ops, "fixed");
+		let b = replay_ops::<VarElem>(&ops, "variable");
+		match (a, b) {
+			(Ok(x), Ok(y)) => Ok(format!("{}; {}", x, y)),
+			(a, b) => Err(format!("{:?}; {:?}", a, b)),
+		}
 	}
 }
